@@ -5,6 +5,8 @@ package main
 import (
 	"bufio"
 	"fmt"
+	"image"
+	"math"
 	"os"
 	"os/exec"
 	"regexp"
@@ -14,6 +16,7 @@ import (
 	"time"
 
 	"github.com/evanoberholster/imagemeta/exif2"
+	"github.com/evanoberholster/imagemeta/imagehash"
 	"vh/internal/drv"
 )
 
@@ -367,7 +370,7 @@ func runC08(c *Ctx) error {
 
 // C04 — a result depends only on the bytes of that call
 func runC04(c *Ctx) error {
-	c.Res.Rule = "every decode entry point x (samples, crafted, generated Exif files, mutations): the result on pristine pooled state (all pooled buffers zeroed through the verif hook) must equal the result after the pools were poisoned with adversarial content (large offsets in every tag slot, non-zero scratch bytes, two different patterns) and after the natural history of the worker (thousands of earlier decodes); hashes: C19. Non-trivial: every case; distinct by (entry, bytes, history)."
+	c.Res.Rule = "every decode entry point x (samples, crafted, generated Exif files, mutations): the result on pristine pooled state (all pooled buffers zeroed through the verif hook) must equal the result after the pools were poisoned with adversarial content (large offsets in every tag slot, non-zero scratch bytes, two different patterns) and after the natural history of the worker (thousands of earlier decodes); the four hash entry points on RGBA/Gray/NRGBA (with fully transparent pixels)/YCbCr images with the pixel pools zeroed vs filled with NaN, 1e30, -7 and vs the state other hashed images leave behind (their bit-level definition: C19). Non-trivial: every case; distinct by (entry, bytes, history)."
 	ins := append(corpus(c, c.N(6, 200), c.N(60, 2000)), genExifInputs(c, c.N(60, 2500))...)
 	ins = append(ins, genExifTruncated(c, c.N(20, 500))...)
 	var cases []epCase
@@ -387,6 +390,7 @@ func runC04(c *Ctx) error {
 	if err := rawOpsCheck(c); err != nil {
 		return err
 	}
+	hashHistoryCheck(c)
 	for _, g := range groups {
 		ref := cases[g.idx[0]]
 		refRes := ref.Ans.Canon
@@ -409,6 +413,52 @@ func runC04(c *Ctx) error {
 		}
 	}
 	return nil
+}
+
+// hashHistoryCheck: the four hashing entry points on images of every kind (incl. NRGBA with fully transparent pixels):
+// the hash with the pixel pools zeroed (verif hook) must equal the hash after the pools were filled with three adversarial
+// patterns and after other images were hashed (the pools then hold their DCT output).
+func hashHistoryCheck(c *Ctx) {
+	fns := hashFns()
+	kinds := []string{"NRGBAa", "RGBA", "Gray", "NRGBA", "YCbCr444"}
+	n := c.N(10, 60)
+	for _, fn := range fns {
+		var prev image.Image
+		for i := 0; i < n; i++ {
+			k := kinds[i%len(kinds)]
+			cname, f := contentFn(c, fn.s)
+			img := mkImage(k, fn.s, fn.s, 0, 0, false, f)
+			imagehash.VerifPoisonPools(3, 0)
+			ref, eref := fn.f(img)
+			hist := []string{"nan", "1e30", "-7", "after-other-image"}
+			for hi, h := range hist {
+				switch hi {
+				case 0:
+					imagehash.VerifPoisonPools(3, math.NaN())
+				case 1:
+					imagehash.VerifPoisonPools(3, 1e30)
+				case 2:
+					imagehash.VerifPoisonPools(3, -7)
+				default:
+					if prev == nil {
+						continue
+					}
+					for r := 0; r < 3; r++ {
+						fn.f(prev)
+					}
+				}
+				got, e := fn.f(img)
+				c.Count(fmt.Sprint("hash", fn.name, k, cname, i, h), true)
+				c.Stat("entry." + fn.name)
+				c.Stat("history.hash-" + h)
+				if (e == nil) != (eref == nil) || joinU(got) != joinU(ref) {
+					c.Violate(Case{Entry: fn.name, Input: fmt.Sprintf("%s %s image #%d, pools: %s", k, cname, i, h), Expected: joinU(ref), Actual: joinU(got),
+						Kind: "wrong-value", Class: "history:hash", Note: "pixel pools zeroed vs " + h})
+				}
+			}
+			prev = img
+		}
+	}
 }
 
 // rawOpsCheck: the reader's two stream primitives on a plain reader (verif hook VerifRawOps) with the pooled scratch buffer
